@@ -229,8 +229,7 @@ the mechanism is correct: loop counters of nested loops are distinct, a label is
 or to a non-labelled statement, every try has a catch or a finally, a finally block has no
 top-level break/continue (no `breaking` block). -/
 def stage1 : Stmt → Bool
-  | .skip | .log _ | .brk _ | .cont _ | .ret _ | .thr _ => true
-  | .fatal => false
+  | .skip | .log _ | .brk _ | .cont _ | .ret _ | .thr _ | .fatal => true
   | .seq a b => stage1 a && stage1 b
   | .tryS _ b hasC c hasF f =>
     (hasC || hasF) && stage1 b && (if hasC then stage1 c else c == .skip)
